@@ -29,31 +29,46 @@ def ResPhase (E : Env U π) (s s' : St U π) (nt : UNT U) (flat : List (Sym × L
 /-- the arguments found are the first pops of their non-terminals -/
 def ResArgs (s' : St U π) (v : List (UNT U)) (acc : List Prog) : Res π → Prop
   | .args l => ∃ l', l = acc ++ l' ∧ l'.length = v.length ∧
-      ∀ (i : Nat) (ai : Prog) (si : UNT U), l'[i]? = some ai → v[i]? = some si → Popped s' si ai
+      ∀ (i : Nat) (ai : Prog) (si : UNT U), l'[i]? = some ai → v[i]? = some si →
+        AList.lookup none (s'.succOf si) = some ai
   | _ => True
+
+/-- `None` is only returned by an exhausted non-terminal -/
+def ResExh (s' : St U π) (nt : UNT U) (p : Option Prog) : Res π → Prop
+  | .prog r => r = none → s'.heapOf nt = [] ∧ AList.lookup p (s'.succOf nt) = none
+  | _ => True
+
+/-- the length of the argument list of the program -/
+def arity : Prog → Nat
+  | .node _ kids => kids.length
 
 /-- the order precondition of a call -/
 def OPre (E : Env U π) (rank : UNT U → Nat) : Call U π → St U π → Prop
-  | .query nt p, s => Below E rank (rank nt) s ∧ (Uninit s nt ∨ NTInv E s nt) ∧ (∀ k, p = some k → Popped s nt k)
-  | .lop nt p, s => Below E rank (rank nt) s ∧ NTInv E s nt ∧ (∀ k, p = some k → Popped s nt k)
-  | .popLoop nt p, s => Below E rank (rank nt) s ∧ NTInv E s nt ∧ (∀ k, p = some k → Popped s nt k)
-  | .addSucc prog nt, s => Below E rank (rank nt) s ∧ NTInv E s nt ∧ Popped s nt prog ∧
-      (∀ x, Popped s nt x → LE E nt x prog)
-  | .addLoop F args nt v _, s => Below E rank (rank nt) s ∧ NTInv E s nt ∧ Popped s nt (.node F args) ∧
+  | .query nt p, s => Below E rank (rank nt) s ∧ (Uninit s nt ∨ (NTInv E s nt ∧ CInv E rank s nt none 0)) ∧
+      (∀ k, p = some k → Popped s nt k)
+  | .lop nt p, s => Below E rank (rank nt) s ∧ (NTInv E s nt ∧ CInv E rank s nt none 0) ∧ (∀ k, p = some k → Popped s nt k)
+  | .popLoop nt p, s => Below E rank (rank nt) s ∧ (NTInv E s nt ∧ CInv E rank s nt none 0) ∧
+      (∀ k, p = some k → Popped s nt k)
+  | .addSucc prog nt, s => Below E rank (rank nt) s ∧ (NTInv E s nt ∧ CInv E rank s nt (some prog) (arity prog)) ∧
+      Popped s nt prog ∧ (∀ x, Popped s nt x → LE E nt x prog)
+  | .addLoop F args nt v i, s => Below E rank (rank nt) s ∧ (NTInv E s nt ∧ CInv E rank s nt (some (.node F args)) i) ∧
+      Popped s nt (.node F args) ∧
       (∀ x, Popped s nt x → LE E nt x (.node F args)) ∧ AList.lookup (nt, .node F args) s.keys = some v
-  | .initNT nt, s => Below E rank (rank nt) s ∧ (Uninit s nt ∨ (NTInv E s nt ∧ s.succOf nt ≠ []))
+  | .initNT nt, s => Below E rank (rank nt) s ∧ (Uninit s nt ∨ Full E rank s nt)
   | .initRules nt _ _, s => Below E rank (rank nt) s ∧ Mid s nt
   | .initAlts nt _ _ _, s => Below E rank (rank nt) s ∧ Mid s nt
   | .initArgs v acc, s => Below E rank (Call.bound rank (.initArgs v acc : Call U π)) s
 
 /-- the order postcondition of a call -/
 def OPost (E : Env U π) (rank : UNT U → Nat) : Call U π → St U π → St U π → Res π → Prop
-  | .query nt p, _, s', r => Below E rank (rank nt) s' ∧ NTInv E s' nt ∧ s'.succOf nt ≠ [] ∧ ResLE E nt p r
-  | .lop nt p, _, s', r => Below E rank (rank nt) s' ∧ NTInv E s' nt ∧ s'.succOf nt ≠ [] ∧ ResLE E nt p r
-  | .popLoop nt p, _, s', r => Below E rank (rank nt) s' ∧ NTInv E s' nt ∧ s'.succOf nt ≠ [] ∧ ResLE E nt p r
-  | .addSucc _ nt, s, s', _ => Below E rank (rank nt) s' ∧ NTInv E s' nt ∧ s'.succOf nt = s.succOf nt
-  | .addLoop _ _ nt _ _, s, s', _ => Below E rank (rank nt) s' ∧ NTInv E s' nt ∧ s'.succOf nt = s.succOf nt
-  | .initNT nt, _, s', _ => Below E rank (rank nt) s' ∧ NTInv E s' nt ∧ s'.succOf nt ≠ []
+  | .query nt p, _, s', r => Below E rank (rank nt) s' ∧ Full E rank s' nt ∧ ResLE E nt p r ∧ ResExh s' nt p r
+  | .lop nt p, _, s', r => Below E rank (rank nt) s' ∧ Full E rank s' nt ∧ ResLE E nt p r ∧ ResExh s' nt p r
+  | .popLoop nt p, _, s', r => Below E rank (rank nt) s' ∧ Full E rank s' nt ∧ ResLE E nt p r ∧ ResExh s' nt p r
+  | .addSucc _ nt, s, s', _ => Below E rank (rank nt) s' ∧ (NTInv E s' nt ∧ CInv E rank s' nt none 0) ∧
+      s'.succOf nt = s.succOf nt
+  | .addLoop _ _ nt _ _, s, s', _ => Below E rank (rank nt) s' ∧ (NTInv E s' nt ∧ CInv E rank s' nt none 0) ∧
+      s'.succOf nt = s.succOf nt
+  | .initNT nt, _, s', _ => Below E rank (rank nt) s' ∧ Full E rank s' nt
   | .initRules nt rs best, s, s', r => Below E rank (rank nt) s' ∧ Mid s' nt ∧ ResPhase E s s' nt (flatOf rs) best r
   | .initAlts nt P alts best, s, s', r => Below E rank (rank nt) s' ∧ Mid s' nt ∧
       ResPhase E s s' nt (altsFlat P alts) best r
@@ -71,17 +86,18 @@ theorem ntinv_after_initPush (H : OHyp E rank Good) {s1 s3 : St U π} {nt : UNT 
     {items : List (π × Prog)} (hmid : Mid s1 nt)
     (hph : Phase1 E s1 nt (flatOf rs) items (some b))
     (hp : initPush E { s1 with maxNT := AList.insert nt b.1 s1.maxNT } nt (flatOf rs) = some s3)
-    (hb2 : Base E { s1 with maxNT := AList.insert nt b.1 s1.maxNT }) :
-    Base E s3 ∧ NTInv E s3 nt ∧ Only nt s1 s3 ∧ Stable s1 s3 := by
+    (hb2 : Base E { s1 with maxNT := AList.insert nt b.1 s1.maxNT })
+    (hflat : ∀ F v w, (v, w) ∈ altsOf E nt F → (F, v) ∈ flatOf rs) :
+    Base E s3 ∧ (NTInv E s3 nt ∧ CInv E rank s3 nt none 0) ∧ Only nt s1 s3 ∧ Stable s1 s3 := by
   have hit : Items (ItemOK E { s1 with maxNT := AList.insert nt b.1 s1.maxNT } nt) (flatOf rs) items :=
     Items.mono (fun d it _ h => h) hph.ok
-  obtain ⟨r1, r2, r3, r4, r5, r6, r7, r8, r9⟩ := initPush_spec H nt _ items _ s3 hit hb2 hp
+  obtain ⟨r1, r2, r3, r4, r5, r6, r7, r8, r9, r10⟩ := initPush_spec H nt _ items _ s3 hit hb2 hp
   obtain ⟨m1, m2, m3, m4⟩ := hmid
   have hheap : s3.heapOf nt = items.foldl (Heapq.push (ltE E.ops)) [] := by rw [r4]; show List.foldl _ (s1.heapOf nt) _ = _; rw [m2]
   have hseen : s3.seenOf nt = items.map (·.2) := by rw [r5]; show s1.seenOf nt ++ _ = _; rw [m4]; rfl
   have hsucc : s3.succOf nt = [] := by rw [r6]; exact m3
   have hst : Stable s1 s3 := r3
-  refine ⟨r1, ⟨?_, ?_, ?_, ?_, ?_, ?_⟩, (only_setMaxNT s1 nt b.1).trans r2, hst⟩
+  refine ⟨r1, ⟨⟨?_, ?_, ?_, ?_, ?_, ?_⟩, ?_, ?_, ?_, ?_⟩, (only_setMaxNT s1 nt b.1).trans r2, hst⟩
   · rw [r7]; exact m1
   · rw [hsucc]; trivial
   · refine ⟨b.1, by rw [r8]; exact AList.lookup_insert_self _ _ _, Or.inr ⟨hsucc, b.2, ?_⟩⟩
@@ -98,11 +114,32 @@ theorem ntinv_after_initPush (H : OHyp E rank Good) {s1 s3 : St U π} {nt : UNT 
     have hko := r1.sinv.keys_ok nt F kids v hk
     obtain ⟨w', hw'⟩ := hko.1
     obtain ⟨rfl, _⟩ := H.ualt nt F kids v w' dv w hw' hmw hko.2 hdl
-    exact (hpop i ai si hai hsi).mono hst
+    exact ⟨none, hst _ _ _ (hpop i ai si hai hsi)⟩
   · intro x hx
     obtain ⟨k, hk⟩ := hx
     rw [hsucc] at hk; cases hk
   · intro k x hk
+    rw [hsucc] at hk; cases hk
+  · intro p hp'
+    rw [hseen] at hp'
+    obtain ⟨it, hit', rfl⟩ := List.mem_map.mp hp'
+    obtain ⟨v', hv'⟩ := r10 it hit'
+    exact ⟨v', by rw [r9]; exact hv'⟩
+  · intro F v w hm
+    obtain ⟨it, hit', hok⟩ := Items.mem_left hph.ok (F, v) (hflat F v w hm)
+    obtain ⟨_, _, w', kids, _, hprog, hdl, hpop⟩ := hok
+    simp only at hprog hdl hpop
+    refine ⟨kids, ?_, derList_length E _ _ hdl, fun j aj sj a b => hst _ _ _ (hpop j aj sj a b)⟩
+    rw [hseen, ← hprog]
+    exact List.mem_map.mpr ⟨it, hit', rfl⟩
+  · intro p hp'
+    left
+    rw [hseen] at hp'
+    unfold St.heapProgs
+    rw [hheap]
+    exact ((Heapq.foldl_push_perm (ltE E.ops) items []).map (·.2)).symm.subset (by simpa using hp')
+  · intro F args v hp'
+    obtain ⟨k, hk⟩ := hp'
     rw [hsucc] at hk; cases hk
 
 /-- one alternative of phase 1 -/
@@ -120,7 +157,7 @@ theorem alt_step (H : OHyp E rank Good) {s s1 s3 : St U π} {nt : UNT U} {P : Sy
     (∀ done items, Phase1 E s nt done items best → (P, v) ∉ done →
       Phase1 E { s3 with maxRule := AList.insert (nt, P, v) (.node P arguments) s3.maxRule } nt (done ++ [(P, v)])
         (items ++ [(pr, .node P arguments)]) (bestUpd E.ops.lt best (.node P arguments) pr)) := by
-  obtain ⟨hb1, hst1, hfr1, _, hargs⟩ := big_all H ha hb trivial trivial
+  obtain ⟨hb1, hst1, hfr1, _, hargs, hkept1⟩ := big_all H ha hb trivial trivial
   have hbound : Call.bound rank (.initArgs v [] : Call U π) ≤ rank nt :=
     bound_le_of_forall rank v _ (H.acyclic nt P v w hm)
   have hfr1' : Frame rank (Call.bound rank (.initArgs v [] : Call U π)) none s s1 := hfr1
@@ -151,7 +188,7 @@ theorem alt_step (H : OHyp E rank Good) {s s1 s3 : St U π} {nt : UNT U} {P : Sy
   · show s3.deleted = []
     obtain ⟨c, rfl⟩ := hcs
     exact hb1.nodel
-  · exact ((hbelow.merge_none hfr1' hst1 hbel1).only ho hst (Nat.le_refl _))
+  · exact ((hbelow.merge_none hfr1' hst1 (fun sj => hkept1 sj (by simp [Call.inner])) hbel1).only ho hst (Nat.le_refl _))
   · obtain ⟨a1, a2, a3, a4⟩ := hmid1
     refine ⟨?_, ?_, ?_, ?_⟩
     · show s3.initS.contains nt = true
@@ -164,7 +201,7 @@ theorem alt_step (H : OHyp E rank Good) {s s1 s3 : St U π} {nt : UNT U} {P : Sy
   · intro done items hph hnd
     apply hph.step H.weak (P, v) pr (.node P arguments)
     · intro d' it hd' ⟨c1, c2, w', kids', c3, c4, c5, c6⟩
-      refine ⟨?_, c2, w', kids', c3, c4, c5, fun i ai si h1 h2 => ((c6 i ai si h1 h2).mono hst1).mono hst⟩
+      refine ⟨?_, c2, w', kids', c3, c4, c5, fun i ai si h1 h2 => hst _ _ _ (hst1 _ _ _ (c6 i ai si h1 h2))⟩
       show AList.lookup (nt, d'.1, d'.2) (AList.insert (nt, P, v) _ s3.maxRule) = _
       rw [AList.lookup_insert_ne _ _ (by intro e; apply hnd; cases e; exact hd')]
       have : s3.maxRule = s1.maxRule := by obtain ⟨c, rfl⟩ := hcs; rfl
@@ -172,7 +209,7 @@ theorem alt_step (H : OHyp E rank Good) {s s1 s3 : St U π} {nt : UNT U} {P : Sy
       exact c1
     · refine ⟨AList.lookup_insert_self _ _ _, hpr, w, arguments, hm, rfl, hl, ?_⟩
       intro i ai si h1 h2
-      exact (hpop i ai si h1 h2).mono hst
+      exact hst _ _ _ (hpop i ai si h1 h2)
 
 theorem rows_alts (H : GHyp E) {nt : UNT U} {rs} (hrs : AList.lookup nt E.G.rules = some rs) :
     ∀ x ∈ rs, altsOf E nt x.1 = x.2 := by
@@ -183,14 +220,26 @@ theorem rows_alts (H : GHyp E) {nt : UNT U} {rs} (hrs : AList.lookup nt E.G.rule
   rw [AList.lookup_of_mem_nodup (H.rows nt rs hrs) (show (x.1, x.2) ∈ rs from hx)]
   rfl
 
-/-- **every call keeps the order invariant** (acyclic unambiguous grammar, no filter, no threshold) -/
+theorem mem_flatOf_of_alts {nt : UNT U} {rs} (hrs : AList.lookup nt E.G.rules = some rs) (F : Sym) (v : List (UNT U))
+    (w : Rat) (hm : (v, w) ∈ altsOf E nt F) : (F, v) ∈ flatOf rs := by
+  unfold altsOf at hm
+  rw [hrs] at hm
+  simp only at hm
+  cases hl : AList.lookup F rs with
+  | none => simp [hl] at hm
+  | some a =>
+    simp only [hl, Option.getD_some] at hm
+    exact List.mem_flatMap.mpr ⟨(F, a), AList.lookup_some_mem hl, List.mem_map.mpr ⟨(v, w), hm, rfl⟩⟩
+
+/-- **every call keeps the order and completeness invariants** (acyclic unambiguous grammar, no filter,
+    no threshold) -/
 theorem big_order (H : OHyp E rank Good) {c : Call U π} {s s' : St U π} {r : Res π} (hb : Big E c s s' r) :
     Base E s → SPre E c → NPre c s → OPre E rank c s → OPost E rank c s s' r := by
   induction hb with
   | @query_direct s s' nt p r h hb ih =>
     intro hbase _ _ hpre
     obtain ⟨h1, h2, h3⟩ := hpre
-    have hn : NTInv E s nt := by
+    have hn : NTInv E s nt ∧ CInv E rank s nt none 0 := by
       rcases h2 with hu | hn
       · rw [hu.1] at h; cases h
       · exact hn
@@ -201,23 +250,25 @@ theorem big_order (H : OHyp E rank Good) {c : Call U π} {s s' : St U π} {r : R
     have hu : Uninit s nt := by
       rcases h2 with hu | hn
       · exact hu
-      · rw [hn.init] at h; cases h
-    obtain ⟨hbase1, hst1, _, _, _⟩ := big_all H h0 hbase trivial trivial
-    obtain ⟨a1, a2, _⟩ := ih0 hbase trivial trivial ⟨h1, Or.inl hu⟩
-    exact ih hbase1 trivial trivial ⟨a1, a2, fun k hk => (h3 k hk).mono hst1⟩
+      · rw [hn.1.init] at h; cases h
+    obtain ⟨hbase1, hst1, _, _, _, _⟩ := big_all H h0 hbase trivial trivial
+    obtain ⟨a1, a2⟩ := ih0 hbase trivial trivial ⟨h1, Or.inl hu⟩
+    exact ih hbase1 trivial trivial ⟨a1, ⟨a2.1, a2.2.2⟩, fun k hk => (h3 k hk).mono hst1⟩
   | @lop_hit s nt p r h =>
     intro _ _ _ hpre
     obtain ⟨h1, h2, h3⟩ := hpre
-    refine ⟨h1, h2, ?_, ?_⟩
+    refine ⟨h1, ⟨h2.1, ?_, h2.2⟩, ?_, ?_⟩
     · intro e; rw [e] at h; cases h
     · intro q hq k hk
       cases hq; subst hk
-      exact h2.sorted k _ h
+      exact h2.1.sorted k _ h
+    · intro hq; cases hq
   | lop_miss h hb ih => intro hbase _ _ hpre; exact ih hbase trivial h hpre
   | @pop_empty s nt key h =>
-    intro _ _ _ hpre
+    intro _ _ hnpre hpre
     obtain ⟨h1, h2, h3⟩ := hpre
-    exact ⟨h1, h2, ntinv_live_of_first h2 ((Heapq.pop_none_iff _ _).mp h), by intro q hq; cases hq⟩
+    have hh := (Heapq.pop_none_iff _ _).mp h
+    exact ⟨h1, ⟨h2.1, ntinv_live_of_first h2.1 hh, h2.2⟩, (by intro q hq; cases hq), fun _ => ⟨hh, hnpre⟩⟩
   | @pop_deleted s s1 s' nt key e h' x r h hd ha hb iha ihb =>
     intro hbase _ _ _
     rw [hbase.nodel] at hd
@@ -227,10 +278,12 @@ theorem big_order (H : OHyp E rank Good) {c : Call U π} {s s' : St U π} {r : R
     obtain ⟨h1, h2, h3⟩ := hpre
     have hnpre' : AList.lookup key (s.succOf nt) = none := hnpre
     obtain ⟨hbase0, hst0, ho0⟩ := hbase.popTake H nt key e h' h hnpre'
-    obtain ⟨n0, p0, l0, le0⟩ := h2.popTake H hbase key e h' h hnpre' h3
+    obtain ⟨n0, p0, l0, le0⟩ := h2.1.popTake H hbase key e h' h hnpre' h3
+    have c0 : CInv E rank (s.popTake nt key e h') nt (some e.2) (arity e.2) :=
+      h2.2.popTake hbase key e h' h hnpre' _ (by intro F args he; rw [he]; exact Nat.le_refl _)
     have hb0 : Below E rank (rank nt) (s.popTake nt key e h') := h1.only ho0 hst0 (Nat.le_refl _)
-    obtain ⟨a1, a2, a3⟩ := iha hbase0 trivial trivial ⟨hb0, n0, p0, l0⟩
-    refine ⟨a1, a2, ?_, ?_⟩
+    obtain ⟨a1, a2, a3⟩ := iha hbase0 trivial trivial ⟨hb0, ⟨n0, c0⟩, p0, l0⟩
+    refine ⟨a1, ⟨a2.1, ?_, a2.2⟩, ?_, ?_⟩
     · rw [a3]
       obtain ⟨k, hk⟩ := p0
       intro e'
@@ -239,16 +292,23 @@ theorem big_order (H : OHyp E rank Good) {c : Call U π} {s s' : St U π} {r : R
     · intro q hq k hk
       cases hq
       exact le0 k hk
-  | succ_leaf =>
+    · intro hq; cases hq
+  | @succ_leaf s F nt =>
     intro _ _ _ hpre
-    exact ⟨hpre.1, hpre.2.1, rfl⟩
+    refine ⟨hpre.1, ⟨hpre.2.1.1, ?_⟩, rfl⟩
+    have hc := hpre.2.1.2
+    exact ⟨hc.keyed, hc.initial, hc.cover, fun F' args v hp hk j aj sj haj hsj hr _ =>
+      hc.succs F' args v hp hk j aj sj haj hsj hr (fun _ => Nat.zero_le _)⟩
   | @succ_fun s s' F a as nt v x hk hb ih =>
     intro hbase _ _ hpre
     obtain ⟨h1, h2, h3, h4⟩ := hpre
     exact ih hbase (hbase.sinv.keys_ok _ _ _ _ hk) trivial ⟨h1, h2, h3, h4, hk⟩
-  | loop_done =>
+  | @loop_done s F args nt v =>
     intro _ _ _ hpre
-    exact ⟨hpre.1, hpre.2.1, rfl⟩
+    refine ⟨hpre.1, ⟨hpre.2.1.1, ?_⟩, rfl⟩
+    have hc := hpre.2.1.2
+    exact ⟨hc.keyed, hc.initial, hc.cover, fun F' args' v' hp hk j aj sj haj hsj hr _ =>
+      hc.succs F' args' v' hp hk j aj sj haj hsj hr (fun _ => Nat.zero_le _)⟩
   | @loop_step s s1 s3 s' F args nt v i ai si r x hai hsi hq hp hb ihq ihb =>
     intro hbase hspre _ hpre
     obtain ⟨h1, h2, h3, h4, h5⟩ := hpre
@@ -257,44 +317,51 @@ theorem big_order (H : OHyp E rank Good) {c : Call U π} {s s' : St U π} {r : R
     have hrk : rank si < rank nt := H.acyclic nt F v w hw si (List.mem_of_getElem? hsi)
     have hne : si ≠ nt := by intro e; rw [e] at hrk; exact Nat.lt_irrefl _ hrk
     have hseen : Tree.node F args ∈ s.seenOf nt := h3.seen hbase.sinv
-    have hkp : Popped s si ai := h2.args F args v hseen h5 i ai si hai hsi
-    have hsi_state : Uninit s si ∨ NTInv E s si := by
-      rcases h1 si hrk with hu | ⟨hn, _⟩
+    have hkp : Popped s si ai := h2.1.args F args v hseen h5 i ai si hai hsi
+    have hsi_state : Uninit s si ∨ (NTInv E s si ∧ CInv E rank s si none 0) := by
+      rcases h1 si hrk with hu | hn
       · exact Or.inl hu
-      · exact Or.inr hn
-    obtain ⟨hbase1, hst1, hfr1, hnpost, _⟩ := big_all H hq hbase trivial trivial
-    obtain ⟨a1, a2, a3, a4⟩ := ihq hbase trivial trivial
+      · exact Or.inr ⟨hn.1, hn.2.2⟩
+    obtain ⟨hbase1, hst1, hfr1, hnpost, _, hkept1⟩ := big_all H hq hbase trivial trivial
+    have hkept1' : ∀ sj, Kept s s1 sj := fun sj => hkept1 sj (by simp [Call.inner])
+    obtain ⟨a1, a2, a4, a5⟩ := ihq hbase trivial trivial
       ⟨h1.mono (Nat.le_of_lt hrk), hsi_state, fun k hk => by cases hk; exact hkp⟩
     have hfr1' : Frame rank (rank si) (some si) s s1 := hfr1
     have hsame : Same s s1 nt := hfr1' nt (Nat.le_of_lt hrk) (by intro e; cases e; exact hne rfl)
-    have hbel1 : Below E rank (rank nt) s1 := h1.merge hfr1' hst1 a1 ⟨a2, a3⟩
-    have hn1 : NTInv E s1 nt := h2.transfer hsame hst1
+    have hbel1 : Below E rank (rank nt) s1 := h1.merge hfr1' hst1 hkept1' a1 a2
+    have hn1 : NTInv E s1 nt := h2.1.transfer hsame hst1
+    have hc1 : CInv E rank s1 nt (some (Tree.node F args)) (i + 1) := h2.2.transfer hsame hst1 (fun sj _ => hkept1' sj)
     have hpop1 : ∀ x, Popped s1 nt x ↔ Popped s nt x := by intro x; unfold Popped; rw [hsame.succ]
+    have hr1 : ∀ q, r = some q → AList.lookup (some ai) (s1.succOf si) = some q := fun q hq' => hnpost q hq'
     have hr : ∀ q, r = some q → Popped s1 si q ∧ LE E si ai q := by
       intro q hq'
       subst hq'
-      have hnp : AList.lookup (some ai) (s1.succOf si) = some q := hnpost q rfl
-      exact ⟨⟨_, hnp⟩, a4 q rfl ai rfl⟩
-    obtain ⟨hbase3, hn3, hsucc3, ho3, hst3, hkey3⟩ := hn1.pushStep H hbase1 hko (by rw [hsame.keys]; exact h5)
-      ((hpop1 _).mpr h3) (fun x hx => h4 x ((hpop1 x).mp hx)) hai hsi hne hr hp
+      exact ⟨⟨_, hr1 q rfl⟩, a4 q rfl ai rfl⟩
+    have hr2 : r = none → s1.initS.contains si = true ∧ s1.heapOf si = [] ∧ AList.lookup (some ai) (s1.succOf si) = none := by
+      intro hq'
+      subst hq'
+      obtain ⟨e1, e2⟩ := a5 rfl
+      exact ⟨a2.1.init, e1, e2⟩
+    obtain ⟨hbase3, hn3, hsucc3, ho3, hst3, hkey3, hc3⟩ := hn1.pushStep H hbase1 hko (by rw [hsame.keys]; exact h5)
+      ((hpop1 _).mpr h3) (fun x hx => h4 x ((hpop1 x).mp hx)) hai hsi hne hr hc1 hr1 hr2 hp
     have hbel3 : Below E rank (rank nt) s3 := hbel1.only ho3 hst3 (Nat.le_refl _)
     have hpop3 : ∀ x, Popped s3 nt x ↔ Popped s nt x := by intro x; unfold Popped; rw [hsucc3, hsame.succ]
     obtain ⟨b1, b2, b3⟩ := ihb hbase3 hko trivial
-      ⟨hbel3, hn3, (hpop3 _).mpr h3, fun x hx => h4 x ((hpop3 x).mp hx), hkey3⟩
+      ⟨hbel3, ⟨hn3, hc3⟩, (hpop3 _).mpr h3, fun x hx => h4 x ((hpop3 x).mp hx), hkey3⟩
     exact ⟨b1, b2, by rw [b3, hsucc3, hsame.succ]⟩
   | @init_skip s nt h =>
     intro _ _ _ hpre
     obtain ⟨h1, h2⟩ := hpre
-    rcases h2 with hu | ⟨hn, hl⟩
+    rcases h2 with hu | hf
     · rw [hu.1] at h; cases h
-    · exact ⟨h1, hn, hl⟩
+    · exact ⟨h1, hf⟩
   | @init_run s s1 s3 s' nt rs b r h hrs hr hp hq ihr ihq =>
     intro hbase _ _ hpre
     obtain ⟨h1, h2⟩ := hpre
     have hu : Uninit s nt := by
-      rcases h2 with hu | ⟨hn, _⟩
+      rcases h2 with hu | hf
       · exact hu
-      · rw [hn.init] at h; cases h
+      · rw [hf.1.init] at h; cases h
     have hbase0 : Base E { s with initS := s.initS ++ [nt] } :=
       ⟨⟨hbase.sinv.cache_ok, hbase.sinv.heap_prio, hbase.sinv.heap_seen, hbase.sinv.seen_der, hbase.sinv.succ_seen,
         hbase.sinv.keys_ok, hbase.sinv.maxNT_ok, hbase.sinv.maxRule_ok, hbase.sinv.start_ok⟩,
@@ -306,7 +373,7 @@ theorem big_order (H : OHyp E rank Good) {c : Call U π} {s s' : St U π} {r : R
     have hbel0 : Below E rank (rank nt) { s with initS := s.initS ++ [nt] } :=
       h1.only (only_addInit s nt) (Stable.refl _) (Nat.le_refl _)
     have hpre1 : SPre E (.initRules nt rs none) := ⟨rows_alts H.ghyp hrs, by intro b hb; cases hb⟩
-    obtain ⟨hbase1, hst1, _, _, hbest⟩ := big_all H hr hbase0 hpre1 trivial
+    obtain ⟨hbase1, hst1, _, _, hbest, _⟩ := big_all H hr hbase0 hpre1 trivial
     obtain ⟨a1, a2, a3⟩ := ihr hbase0 hpre1 trivial ⟨hbel0, hmid0⟩
     obtain ⟨items, hph⟩ := a3 [] [] (phase1_nil E _ nt) (by rw [List.nil_append]; exact H.flat_nodup nt rs hrs)
     simp only [List.nil_append] at hph
@@ -320,10 +387,10 @@ theorem big_order (H : OHyp E rank Good) {c : Call U π} {s s' : St U π} {r : R
       split at hl
       · rename_i heq; cases hl; subst heq; exact hbd
       · exact hbase1.sinv.maxNT_ok nt' m hl
-    obtain ⟨hbase3, hn3, ho3, hst3⟩ := ntinv_after_initPush H a2 hph hp hbase2
+    obtain ⟨hbase3, hn3, ho3, hst3⟩ := ntinv_after_initPush H a2 hph hp hbase2 (mem_flatOf_of_alts hrs)
     have hbel3 : Below E rank (rank nt) s3 := a1.only ho3 hst3 (Nat.le_refl _)
-    obtain ⟨c1, c2, c3, _⟩ := ihq hbase3 trivial trivial ⟨hbel3, Or.inr hn3, by intro k hk; cases hk⟩
-    exact ⟨c1, c2, c3⟩
+    obtain ⟨c1, c2, _, _⟩ := ihq hbase3 trivial trivial ⟨hbel3, Or.inr hn3, by intro k hk; cases hk⟩
+    exact ⟨c1, c2⟩
   | @rules_nil s nt best =>
     intro _ _ _ hpre
     refine ⟨hpre.1, hpre.2, ?_⟩
@@ -333,7 +400,7 @@ theorem big_order (H : OHyp E rank Good) {c : Call U π} {s s' : St U π} {r : R
     intro hbase hspre _ hpre
     have hP : altsOf E nt P = alts := hspre.1 (P, alts) List.mem_cons_self
     have hpreA : SPre E (.initAlts nt P alts best) := ⟨by intro vw hvw; rw [hP]; exact hvw, hspre.2⟩
-    obtain ⟨hbase1, _, _, _, hb1⟩ := big_all H ha hbase hpreA trivial
+    obtain ⟨hbase1, _, _, _, hb1, _⟩ := big_all H ha hbase hpreA trivial
     have hpreR : SPre E (.initRules nt rest best1) := ⟨fun x hx => hspre.1 x (List.mem_cons_of_mem _ hx), hb1⟩
     obtain ⟨a1, a2, a3⟩ := iha hbase hpreA trivial hpre
     obtain ⟨b1, b2, b3⟩ := ihb hbase1 hpreR trivial ⟨a1, a2⟩
@@ -412,28 +479,27 @@ theorem big_order (H : OHyp E rank Good) {c : Call U π} {s s' : St U π} {r : R
         Call.bound rank (.initArgs (si :: v) acc : Call U π) := by
       show _ ≤ max (rank si + 1) _
       exact Nat.le_max_right _ _
-    obtain ⟨hbase1, hst1, hfr1, _, _⟩ := big_all H hi' hbase trivial trivial
+    obtain ⟨hbase1, hst1, hfr1, _, _, hkept1⟩ := big_all H hi' hbase trivial trivial
     have hfr1' : Frame rank (rank si) (some si) s s1 := hfr1
-    obtain ⟨a1, a2, a3⟩ := ihi hbase trivial trivial ⟨hpre'.mono (Nat.le_of_lt hrk), hpre' si hrk⟩
-    have hbel1 := hpre'.merge hfr1' hst1 a1 ⟨a2, a3⟩
-    obtain ⟨_, hst2, _, _, _⟩ := big_all H hb hbase1 trivial trivial
+    obtain ⟨a1, a2⟩ := ihi hbase trivial trivial ⟨hpre'.mono (Nat.le_of_lt hrk), hpre' si hrk⟩
+    have hbel1 := hpre'.merge hfr1' hst1 (fun sj => hkept1 sj (by simp [Call.inner])) a1 a2
+    obtain ⟨_, hst2, hfr2, _, _, hkept2⟩ := big_all H hb hbase1 trivial trivial
     obtain ⟨b1, l', hl', hlen, hpop⟩ := ihb hbase1 trivial trivial (hbel1.mono hbv)
     have hb2 : Below E rank (Call.bound rank (.initArgs (si :: v) acc : Call U π)) s' := by
-      obtain ⟨_, _, hfr2, _, _⟩ := big_all H hb hbase1 trivial trivial
       have hfr2' : Frame rank (Call.bound rank (.initArgs v (acc ++ [m]) : Call U π)) none s1 s' := hfr2
-      exact hbel1.merge_none hfr2' hst2 b1
+      exact hbel1.merge_none hfr2' hst2 (fun sj => hkept2 sj (by simp [Call.inner])) b1
     refine ⟨hb2, m :: l', by rw [hl']; simp, by simp [hlen], ?_⟩
     intro i ai sj hai hsj
     cases i with
     | zero =>
       simp only [List.getElem?_cons_zero, Option.some.injEq] at hai hsj
       subst hai; subst hsj
-      obtain ⟨m', e1, e2⟩ := a2.first
+      obtain ⟨m', e1, e2⟩ := a2.1.first
       rw [hm] at e1
       cases e1
       rcases e2 with e2 | ⟨e2, _⟩
-      · exact Popped.mono hst2 ⟨none, e2⟩
-      · exact absurd e2 a3
+      · exact hst2 _ _ _ e2
+      · exact absurd e2 a2.2.1
     | succ i =>
       simp only [List.getElem?_cons_succ] at hai hsj
       exact hpop i ai sj hai hsj
